@@ -11,6 +11,12 @@ mod gen_std;
 mod props;
 mod rng;
 mod sx;
+mod pre_expand;
+mod pre_gen;
+mod pre_reflect;
+mod pre_sx;
+mod pre_unroll;
+mod pre_worker;
 mod syntax;
 mod text;
 
@@ -26,6 +32,7 @@ fn main() {
         child::worker_main();
         return;
     }
+    if pre_worker::dispatch(&args) { return; }
     if args.len() >= 3 && args[1] == "explore" {
         explore::explore(&std::fs::read_to_string(&args[2]).expect("read"));
         return;
